@@ -54,6 +54,15 @@ def gen_float_doc(rng, adversarial=False):
         if r < 0.97 or not adversarial:
             return q(rng, 0, 10)
         return -q(rng, 0, 8)
+    def vmargin():
+        """Vertical margin of an in-flow block: they collapse between siblings (clearance is computed
+        from the collapsed position)."""
+        r = rng.random()
+        if r < 0.45:
+            return F(0)
+        if r < 0.93:
+            return q(rng, 0, 40)
+        return -q(rng, 0, 10)
     for kind in kinds:
         if kind == 'float':
             r = rng.random()
@@ -69,12 +78,31 @@ def gen_float_doc(rng, adversarial=False):
         elif kind == 'para':
             max_chars = max(1, int(width // fs) + (2 if adversarial else 0))
             words = [rng.randint(1, max_chars) for _ in range(rng.randint(1, 5))]
-            doc['items'].append({'kind': 'para', 'clear': clear(), 'words': words})
+            # floats met inside a line, after its word: widths around what is left of the line, so that
+            # "fits on the line", "waits for the end of the line" and "waits behind a waiting float" all occur
+            inline = []
+            for n in words:
+                line_floats = []
+                # (ltr only: known finding rtl-inline-float-displaced)
+                if not doc['rtl'] and rng.random() < 0.45:
+                    left_over = max(F(1), width - n * fs)
+                    for _f in range(rng.choice([1, 1, 2, 2, 3])):
+                        r = rng.random()
+                        fw = (F(rng.randint(1, int(left_over * 4)), 4) if r < 0.55 else
+                              left_over + q(rng, 0, 20) if r < 0.8 else q(rng, 1, 12))
+                        line_floats.append({'side': rng.choice(SIDES), 'w': fw, 'h': q(rng, 1, 30),
+                                            'clear': clear() if rng.random() < 0.3 else 'none',
+                                            'mt': abs(margin()), 'mr': abs(margin()), 'mb': abs(margin()),
+                                            'ml': abs(margin())})
+                inline.append(line_floats)
+            doc['items'].append({'kind': 'para', 'clear': clear(), 'words': words, 'inline': inline,
+                                 'mt': vmargin(), 'mb': vmargin()})
         elif kind == 'bfc':
             w = 'auto' if rng.random() < 0.3 else F(rng.randint(1, int(width * 4)), 4)
-            doc['items'].append({'kind': 'bfc', 'clear': clear(), 'w': w,
-                                 'h': F(0) if rng.random() < 0.1 else q(rng, 0, 30),
-                                 'ml': margin() if margin() >= 0 else F(0), 'mr': abs(margin())})
+            h = F(0) if rng.random() < 0.1 else q(rng, 0, 30)
+            doc['items'].append({'kind': 'bfc', 'clear': clear(), 'w': w, 'h': h,
+                                 'ml': margin() if margin() >= 0 else F(0), 'mr': abs(margin()),
+                                 'mt': vmargin() if h > 0 else F(0), 'mb': vmargin() if h > 0 else F(0)})
         elif kind == 'table':
             doc['items'].append({'kind': 'table', 'clear': clear(), 'w': F(rng.randint(4, int(width * 4)), 4),
                                  'h': q(rng, 1, 30), 'ml': abs(margin()), 'mr': abs(margin())})
@@ -83,12 +111,20 @@ def gen_float_doc(rng, adversarial=False):
                                  'h': F(0) if rng.random() < 0.05 else q(rng, 0, 30),
                                  'ml': abs(margin()), 'mr': abs(margin())})
         else:
-            doc['items'].append({'kind': 'block', 'clear': clear(),
-                                 'h': F(0) if rng.random() < 0.1 else q(rng, 0, 30)})
+            h = F(0) if rng.random() < 0.1 else q(rng, 0, 30)
+            doc['items'].append({'kind': 'block', 'clear': clear(), 'h': h,
+                                 'mt': vmargin() if h > 0 else F(0), 'mb': vmargin() if h > 0 else F(0)})
     return doc
 
 
 SVG = "data:image/svg+xml,%3Csvg xmlns='http://www.w3.org/2000/svg' width='4' height='4'/%3E"
+
+
+CONTAINER_PAD = 1
+
+
+def word(n):
+    return 'abcdefghijklmnopqrstuvwxyz'[:n] if n <= 26 else 'a' * n
 
 
 def float_doc_html(doc):
@@ -97,7 +133,8 @@ def float_doc_html(doc):
         '<style>@page{size:600px 6000px;margin:%dpx}html,body{margin:0;padding:0}'
         'body{font-family:weasyprint;font-size:%dpx;line-height:%dpx}p{margin:0}</style>' % (PAGE_MARGIN, fs, fs),
         f'<div style="height:{px(doc["spacer"])}"></div>',
-        f'<div id="c" style="width:{px(doc["w"])};margin-left:{px(doc["ml"])};'
+        # the top padding keeps the children's margins from collapsing through the container
+        f'<div id="c" style="width:{px(doc["w"])};margin-left:{px(doc["ml"])};padding-top:{CONTAINER_PAD}px;'
         f'direction:{"rtl" if doc["rtl"] else "ltr"}">',
     ]
     for i, it in enumerate(doc['items']):
@@ -106,14 +143,22 @@ def float_doc_html(doc):
                 f'<div id="i{i}" style="float:{it["side"]};width:{px(it["w"])};height:{px(it["h"])};'
                 f'margin:{px(it["mt"])} {px(it["mr"])} {px(it["mb"])} {px(it["ml"])};clear:{it["clear"]}"></div>')
         elif it['kind'] == 'para':
-            # one TextBox with forced breaks (white-space: pre-line): one word per line box
-            text = '\n'.join('abcdefghijklmnopqrstuvwxyz'[:n] if n <= 26 else 'a' * n for n in it['words'])
-            parts.append(f'<p id="i{i}" style="white-space:pre-line;clear:{it["clear"]}">{text}</p>')
+            # forced breaks (white-space: pre-line): one word per line box, its floats right after the word
+            chunks = []
+            for k, n in enumerate(it['words']):
+                spans = ''.join(
+                    f'<span id="i{i}l{k}f{m}" style="float:{f["side"]};width:{px(f["w"])};height:{px(f["h"])};'
+                    f'margin:{px(f["mt"])} {px(f["mr"])} {px(f["mb"])} {px(f["ml"])};clear:{f["clear"]}"></span>'
+                    for m, f in enumerate(it['inline'][k]))
+                chunks.append(word(n) + spans)
+            text = '\n'.join(chunks)
+            parts.append(f'<p id="i{i}" style="white-space:pre-line;clear:{it["clear"]};'
+                         f'margin:{px(it["mt"])} 0 {px(it["mb"])}">{text}</p>')
         elif it['kind'] == 'bfc':
             width = 'auto' if it['w'] == 'auto' else px(it['w'])
             parts.append(
                 f'<div id="i{i}" style="overflow:hidden;width:{width};height:{px(it["h"])};'
-                f'margin-left:{px(it["ml"])};margin-right:{px(it["mr"])};clear:{it["clear"]}"></div>')
+                f'margin:{px(it["mt"])} {px(it["mr"])} {px(it["mb"])} {px(it["ml"])};clear:{it["clear"]}"></div>')
         elif it['kind'] == 'table':
             parts.append(
                 f'<table id="i{i}" style="width:{px(it["w"])};height:{px(it["h"])};border-spacing:0;'
@@ -123,27 +168,30 @@ def float_doc_html(doc):
                 f'<img id="i{i}" src="{SVG}" style="display:block;width:{px(it["w"])};height:{px(it["h"])};'
                 f'margin-left:{px(it["ml"])};margin-right:{px(it["mr"])};clear:{it["clear"]}">')
         else:
-            parts.append(f'<div id="i{i}" style="height:{px(it["h"])};clear:{it["clear"]}"></div>')
+            parts.append(f'<div id="i{i}" style="height:{px(it["h"])};margin:{px(it["mt"])} 0 {px(it["mb"])};'
+                         f'clear:{it["clear"]}"></div>')
     parts.append('</div>')
     return ''.join(parts)
 
 
 def float_doc_wire(doc):
     cx = F(PAGE_MARGIN) + doc['ml']
-    y0 = F(PAGE_MARGIN) + doc['spacer']
+    y0 = F(PAGE_MARGIN) + doc['spacer'] + CONTAINER_PAD
     items = []
     for it in doc['items']:
         if it['kind'] == 'float':
             items.append(['float', [0, 0, it['mt'], it['mb'], it['ml'], it['mr'], it['w'], it['h'], it['side'],
                                     it['clear'], 'bfc']])
         elif it['kind'] == 'para':
-            items.append(['para', it['clear'], doc['fs'], [n * doc['fs'] for n in it['words']]])
+            lines = [[n * doc['fs'], [[0, 0, f['mt'], f['mb'], f['ml'], f['mr'], f['w'], f['h'], f['side'], f['clear'],
+                                        'bfc'] for f in fl]] for n, fl in zip(it['words'], it['inline'])]
+            items.append(['para', it['clear'], doc['fs'], lines, it['mt'], it['mb']])
         elif it['kind'] == 'bfc':
-            items.append(['bfc', it['clear'], it['w'], it['h'], it['ml'], it['mr']])
+            items.append(['bfc', it['clear'], it['w'], it['h'], it['ml'], it['mr'], it['mt'], it['mb']])
         elif it['kind'] in ('img', 'table'):
             items.append([it['kind'], it['clear'], it['w'], it['h'], it['ml'], it['mr']])
         else:
-            items.append(['block', it['clear'], it['h']])
+            items.append(['block', it['clear'], it['h'], it['mt'], it['mb']])
     return sx.line('flow', [cx, doc['w'], doc['rtl']], y0, items)
 
 
@@ -188,14 +236,26 @@ def observe_float_doc(doc):
                 box.position_x, box.position_y, box.margin_width(), box.margin_height())) + ')')
         elif it['kind'] == 'para':
             lines = [c for c in box.children if isinstance(c, boxes.LineBox)]
-            out.append('(P' + ''.join(
-                ' (' + ' '.join(sx.atom(fr(v)) for v in (ln.position_x, ln.position_y, ln.width)) + ')'
-                for ln in lines) + ')')
+            text = '(P'
+            for k, ln in enumerate(lines):
+                n_inline = len(it['inline'][k]) if k < len(it['inline']) else 0
+                if n_inline:
+                    # a line holding floats: its box also spans the floats placed on it; only its top is compared
+                    text += ' (- ' + sx.atom(fr(ln.position_y)) + ' -'
+                else:
+                    text += ' (' + ' '.join(sx.atom(fr(v)) for v in (ln.position_x, ln.position_y, ln.width))
+                for m in range(n_inline):
+                    fl = [b for b in by_id.get(f'i{i}l{k}f{m}', []) if isinstance(b, boxes.BlockBox)]
+                    text += (' (F ' + ' '.join(sx.atom(fr(v)) for v in (
+                        fl[0].position_x, fl[0].position_y, fl[0].margin_width(), fl[0].margin_height())) + ')'
+                        if len(fl) == 1 else f' (missing-or-split {len(fl)})')
+                text += ')'
+            out.append(text + ')')
         elif it['kind'] in ('bfc', 'img', 'table'):
             out.append(('(B ' if it['kind'] == 'bfc' else '(R ') + ' '.join(sx.atom(fr(v)) for v in (
                 box.border_box_x(), box.border_box_y(), box.border_width(), box.border_height())) + ')')
         else:
-            out.append('(K ' + sx.atom(fr(box.position_y)) + ')')
+            out.append('(K ' + sx.atom(fr(box.border_box_y())) + ')')
     return ' '.join(out)
 
 
@@ -546,127 +606,186 @@ def overlap(a, b):
     return ax < bx + bw and bx < ax + aw and ay < by + bh and by < ay + ah
 
 
+def collapse(margins):
+    """CSS 2.1 §8.3.1: adjoining margins collapse to max(positive) + min(negative)."""
+    return max([F(0)] + [m for m in margins if m > 0]) + min([F(0)] + [m for m in margins if m < 0])
+
+
 def float_doc_violation(doc, impl):
     """C11 on a rendered float document: floats inside the container when they fit, pairwise disjoint,
-    tops in document order and not above their static position, pushed to their side; line boxes and
-    BFC roots that fit do not overlap floats; `clear` puts a box below the floats it names."""
+    tops in document order and not above their static position / the line they were met in, pushed to
+    their side, as high as possible; line boxes, BFC roots, images and tables that fit do not overlap
+    floats; `clear` puts the top border edge of a box below the floats it names (and exactly there
+    when its position without clearance, margins collapsed, would have been higher up)."""
     if impl.startswith('err:'):
         return f'rendering raised {impl}'
     placed = sx.loads_line(impl)
-    if len(placed) != len(doc['items']) or any(p[0].startswith('missing') for p in placed):
+    if len(placed) != len(doc['items']) or 'missing' in impl:
         return f'boxes missing from the rendered page: {impl[:200]}'
     cx = F(PAGE_MARGIN) + doc['ml']
     width = doc['w']
     fs = doc['fs']
-    floats = []          # (rect, side, index)
+    floats = []          # (rect, side, index label)
     ghosts = False       # a float without area was placed: it still takes part in the collision tests
-    flow_alt = None      # bottom of a preceding zero-height BFC root (what follows may start there or at flow_y)
-    flow_y = F(PAGE_MARGIN) + doc['spacer']      # bottom of the in-flow content so far = static position
+    flow_y = F(PAGE_MARGIN) + doc['spacer'] + CONTAINER_PAD      # bottom border edge of the in-flow content so far
+    adj = []             # margins adjoining the next in-flow box
+    loose = False        # a zero-height box collapsed through: the next positions are not claimed exactly
+    order_base = [0]     # rule 5 is held against floats[order_base:] (see the known finding below)
+
+    def check_float(label, rect, side, clear, degenerate, lowest, rule8, earlier):
+        """The float rules for one float against `earlier` (the floats it has to respect)."""
+        nonlocal ghosts
+        x, y, mw, mh = rect
+        named = [f for f in earlier if clear in (f[1], 'both')]
+        if degenerate:
+            ghosts = True
+            return None
+        for other, oside, j in earlier:
+            if overlap(rect, other):
+                return f'float {label} {rect} overlaps float {j} {other}'
+        ordered = earlier[order_base[0]:] if earlier is floats else earlier
+        if ordered and y < max(f[0][1] for f in ordered):
+            return f'float {label} top {y} is above the top of an earlier float'
+        if y < lowest:
+            return f'float {label} top {y} is above its static position / the top of its line {lowest}'
+        for other, oside, j in named:
+            if y < other[1] + other[3]:
+                return f'float {label} (clear:{clear}) top {y} is above the bottom of float {j}'
+        if ghosts:
+            return None
+        if rule8:
+            low = max([lowest] + [f[0][1] for f in ordered] + [o[1] + o[3] for o, _s, _j in named])
+            for cand in sorted({low} | {f[0][1] + f[0][3] for f in earlier if low < f[0][1] + f[0][3]}):
+                if cand >= y:
+                    break
+                band = [f for f in earlier if f[0][1] < cand + mh and cand < f[0][1] + f[0][3]]
+                room = (min([cx + width] + [f[0][0] for f in band if f[1] == 'right']) -
+                        max([cx] + [f[0][0] + f[0][2] for f in band if f[1] == 'left']))
+                if not band or mw <= room:
+                    return (f'float {label} placed at y={y} although it fits at y={cand} '
+                            f'(room {room}, margin width {mw}): not as high as possible')
+        beside = [f for f in earlier if f[0][1] < y + mh and y < f[0][1] + f[0][3] and f[0][3] > 0]
+        if mw <= width and not beside and not (cx <= x and x + mw <= cx + width):
+            return f'float {label} {rect} fits its container [{cx}, {cx + width}] but lies outside it'
+        if not beside and mw <= width:
+            want = cx if side == 'left' else cx + width - mw
+            if x != want:
+                return f'float {label} is alone on its band but not at its side: x={x}, expected {want}'
+        if beside and cx <= x and x + mw <= cx + width:
+            if side == 'left':
+                edges = [cx] + [f[0][0] + f[0][2] for f in beside if f[1] == 'left']
+                if x != max(edges):
+                    return f'left float {label} at x={x} is not against the container edge / left floats ({max(edges)})'
+            else:
+                edges = [cx + width] + [f[0][0] for f in beside if f[1] == 'right']
+                if x + mw != min(edges):
+                    return f'right float {label} ends at {x + mw}, not against the edge / right floats ({min(edges)})'
+        return None
+
+    def cleared_top(it, top, what):
+        """`clear` on an in-flow box whose top border edge is at `top`."""
+        named = [f for f in floats if it['clear'] in (f[1], 'both')]
+        for other, side, j in named:
+            if top < other[1] + other[3]:
+                return (f'{what} (clear:{it["clear"]}) has its top border edge at {top}, above the bottom '
+                        f'{other[1] + other[3]} of float {j}: it overlaps the float it clears'), None
+        uncleared = flow_y + collapse(adj + [it.get('mt', F(0))])
+        expected = max([uncleared] + [o[1] + o[3] for o, _s, _j in named])
+        return None, expected
+
     for i, (it, p) in enumerate(zip(doc['items'], placed)):
         kind = it['kind']
-        named = [f for f in floats if it['clear'] in (f[1], 'both')]
         if kind == 'float':
             rect = tuple(F(v) for v in p[1:5])
-            x, y, mw, mh = rect
-            degenerate = it['h'] == 0 or mh <= 0 or mw < 0
+            degenerate = it['h'] == 0 or rect[3] <= 0 or rect[2] < 0
+            what = check_float(f'#{i}', rect, it['side'], it['clear'], degenerate,
+                               F(-10 ** 9) if loose else flow_y + collapse(adj), not loose, floats)
+            if what:
+                return what
             if not degenerate:
-                for other, side, j in floats:
-                    if overlap(rect, other):
-                        return f'float #{i} {rect} overlaps float #{j} {other}'
-                if floats and y < max(f[0][1] for f in floats):
-                    return f'float #{i} top {y} is above the top of an earlier float'
-                if y < flow_y:
-                    return f'float #{i} top {y} is above its static position {flow_y}'
-                for other, side, j in named:
-                    if y < other[1] + other[3]:
-                        return f'float #{i} (clear:{it["clear"]}) top {y} is above the bottom of float #{j}'
-                # rule 8: as high as possible — no earlier admissible position where it would have fitted
-                if not ghosts:
-                    lowest = max([flow_y, flow_alt if flow_alt is not None else flow_y] + [f[0][1] for f in floats] + [o[1] + o[3] for o, _s, _j in named])
-                    for cand in sorted({lowest} | {f[0][1] + f[0][3] for f in floats if lowest < f[0][1] + f[0][3]}):
-                        if cand >= y:
-                            break
-                        band = [f for f in floats if f[0][1] < cand + mh and cand < f[0][1] + f[0][3]]
-                        room = (min([cx + width] + [f[0][0] for f in band if f[1] == 'right']) -
-                                max([cx] + [f[0][0] + f[0][2] for f in band if f[1] == 'left']))
-                        if not band or mw <= room:
-                            return (f'float #{i} placed at y={y} although it fits at y={cand} '
-                                    f'(room {room}, margin width {mw}): not as high as possible')
-                beside = [f for f in floats if f[0][1] < y + mh and y < f[0][1] + f[0][3] and f[0][3] > 0]
-                if ghosts:
-                    beside = None
-                if beside is None:
-                    pass
-                elif mw <= width and not beside and not (cx <= x and x + mw <= cx + width):
-                    return f'float #{i} {rect} fits its container [{cx}, {cx + width}] but lies outside it'
-                if beside is not None and not beside and mw <= width:
-                    want = cx if it['side'] == 'left' else cx + width - mw
-                    if x != want:
-                        return f'float #{i} is alone on its band but not at its side: x={x}, expected {want}'
-                if beside and cx <= x and x + mw <= cx + width:
-                    # as far to its side as possible: touching the container edge or a float of the same side
-                    if it['side'] == 'left':
-                        edges = [cx] + [f[0][0] + f[0][2] for f in beside if f[1] == 'left']
-                        if x != max(edges):
-                            return f'left float #{i} at x={x} is not against the container edge / left floats ({max(edges)})'
-                    else:
-                        edges = [cx + width] + [f[0][0] for f in beside if f[1] == 'right']
-                        if x + mw != min(edges):
-                            return f'right float #{i} ends at {x + mw}, not against the edge / right floats ({min(edges)})'
-            if not degenerate:
-                floats.append((rect, it['side'], i))
-            else:
-                ghosts = True
-        elif kind == 'para':
-            lines = [tuple(F(v) for v in ln) for ln in p[1:]]
+                floats.append((rect, it['side'], f'#{i}'))
+            continue
+        if kind == 'para':
+            lines = p[1:]
             if len(lines) != len(it['words']):
                 return f'paragraph #{i}: {len(lines)} line boxes for {len(it["words"])} forced lines'
-            y_prev = flow_y
-            for (x, y, w), n in zip(lines, it['words']):
-                if w != n * fs:
-                    return f'paragraph #{i}: line width {w} for {n} glyphs of {fs}px'
-                if y < y_prev:
+            what, expected = cleared_top(it, F(lines[0][1]), f'paragraph #{i}')
+            if what:
+                return what
+            y_prev = None
+            for k, (ln, n) in enumerate(zip(lines, it['words'])):
+                y = F(ln[1])
+                if y_prev is None:
+                    if not loose and y < expected:
+                        return f'paragraph #{i}: first line at {y}, above its position {expected}'
+                elif y < y_prev:
                     return f'paragraph #{i}: line at {y} above the previous bottom {y_prev}'
-                beside = [f for f in floats if f[0][1] < y + fs and y < f[0][1] + f[0][3]]
-                left = max([cx] + [f[0][0] + f[0][2] for f in beside if f[1] == 'left'])
-                right = min([cx + width] + [f[0][0] for f in beside if f[1] == 'right'])
-                if w <= right - left:
-                    for other, side, j in floats:
-                        if overlap((x, y, w, F(fs)), other):
-                            return f'line of paragraph #{i} {(x, y, w, fs)} overlaps float #{j} {other}'
-                for other, side, j in named:
-                    if y < other[1] + other[3]:
-                        return f'paragraph #{i} (clear:{it["clear"]}) line at {y} above the bottom of float #{j}'
+                line_floats = ln[3:]
+                if not line_floats:
+                    x, w = F(ln[0]), F(ln[2])
+                    if w != n * fs:
+                        return f'paragraph #{i}: line width {w} for {n} glyphs of {fs}px'
+                    beside = [f for f in floats if f[0][1] < y + fs and y < f[0][1] + f[0][3]]
+                    left = max([cx] + [f[0][0] + f[0][2] for f in beside if f[1] == 'left'])
+                    right = min([cx + width] + [f[0][0] for f in beside if f[1] == 'right'])
+                    if w <= right - left:
+                        for other, side, j in floats:
+                            if overlap((x, y, w, F(fs)), other):
+                                return f'line of paragraph #{i} {(x, y, w, fs)} overlaps float {j} {other}'
+                same_line = []
+                for m, (fl, spec) in enumerate(zip(line_floats, it['inline'][k])):
+                    rect = tuple(F(v) for v in fl[1:5])
+                    label = f'#{i}/line{k}/{m}'
+                    if rect[1] == y:
+                        # kept on its line.  Known finding inline-float-snapped-to-line-top: such a float is moved
+                        # to the line's top whatever find_float_position decided, so its position is only held
+                        # against the floats of the same line: it may not be above an earlier one of them
+                        if same_line and rect[1] < max(f[0][1] for f in same_line):
+                            return (f'float {label} (top {rect[1]}) is above an earlier float of the same line '
+                                    f'(top {max(f[0][1] for f in same_line)})')
+                        if floats and rect[1] < max(f[0][1] for f in floats):
+                            # the finding at work: the float sits above an earlier float, and the code only
+                            # looks at the last float for rule 5; later floats are held against this one onwards
+                            order_base[0] = len(floats)
+                    else:
+                        # sent below the line: all the rules apply
+                        what = check_float(label, rect, spec['side'], spec['clear'], rect[3] <= 0, y, False, floats)
+                        if what:
+                            return what
+                    floats.append((rect, spec['side'], label))
+                    same_line.append((rect, spec['side'], label))
                 y_prev = y + fs
-            flow_y, flow_alt = y_prev, None
+            flow_y, adj, loose = y_prev, [it['mb']], False
         elif kind in ('bfc', 'img', 'table'):
             x, y, w, h = (F(v) for v in p[1:5])
-            if y < flow_y:
-                return f'BFC root #{i} at {y} above the previous bottom {flow_y}'
+            what, expected = cleared_top(it, y, f'box #{i}')
+            if what:
+                return what
+            if not loose and y < expected:
+                return f'box #{i} at {y}, above its position {expected}'
             beside = [f for f in floats if f[0][1] < y + h and y < f[0][1] + f[0][3]]
             left = max([cx + it['ml']] + [f[0][0] + f[0][2] for f in beside if f[1] == 'left'])
             right = min([cx + width - it['mr']] + [f[0][0] for f in beside if f[1] == 'right'])
             if h > 0 and w <= right - left:
                 for other, side, j in floats:
                     if overlap((x, y, w, h), other):
-                        return f'BFC root #{i} {(x, y, w, h)} overlaps float #{j} {other}'
-            for other, side, j in named:
-                if y < other[1] + other[3]:
-                    return f'BFC root #{i} (clear:{it["clear"]}) at {y} above the bottom of float #{j}'
-            if h > 0 or kind != 'bfc':   # a BFC root without area collapses through: what follows may start where it would have
-                flow_y, flow_alt = y + h, None
+                        return f'box #{i} {(x, y, w, h)} overlaps float {j} {other}'
+            if h > 0 or kind != 'bfc':
+                flow_y, adj, loose = y + h, [it.get('mb', F(0))], False
             else:
-                flow_alt = y
+                loose = True      # a BFC root without area collapses through
         else:
             y = F(p[1])
-            if y < flow_y:
-                return f'block #{i} at {y} above the previous bottom {flow_y}'
-            for other, side, j in named:
-                if y < other[1] + other[3]:
-                    return f'block #{i} (clear:{it["clear"]}) at {y} above the bottom of float #{j}'
-            if not named and y not in (flow_y, flow_alt):
-                return f'block #{i} without clearance at {y}, expected {flow_y}'
-            flow_y, flow_alt = y + it['h'], None
+            what, expected = cleared_top(it, y, f'block #{i}')
+            if what:
+                return what
+            if not loose and y != expected:
+                return (f'block #{i} has its top border edge at {y}, expected {expected} (position without '
+                        f'clearance, or the bottom of the lowest float it clears)')
+            if it['h'] > 0:
+                flow_y, adj, loose = y + it['h'], [it['mb']], False
+            else:
+                loose = True
     return None
 
 
@@ -814,7 +933,25 @@ def finding_fixed_in_absolute():
     return _box(html, 'x', 0) is not None and _box(html, 'x', 1) is None
 
 
+def finding_rtl_inline_float():
+    """rtl: a left float met in a line (and fitting on it) must stay inside its 100-px container."""
+    box = _box('<div style="width:100px;direction:rtl"><p style="margin:0">aa<span id="f" style="float:left;'
+               'width:20px;height:10px"></span> bb</p></div>', 'f')
+    return box is None or not (20 <= box.position_x and box.position_x + box.margin_width() <= 120)
+
+
+def finding_inline_float_snapped():
+    """A `clear:left` float met in a line next to an earlier left float must go below that float
+    (and not overlap it)."""
+    box = _box('<div style="width:100px"><div style="float:left;width:80px;height:30px"></div>'
+               '<p style="margin:0">a<span id="f" style="float:left;clear:left;width:5px;height:10px"></span> b</p>'
+               '</div>', 'f')
+    return box is None or box.position_y < 20 + 30
+
+
 FINDING_REPLAYS = {
+    'rtl-inline-float-displaced': finding_rtl_inline_float,
+    'inline-float-snapped-to-line-top': finding_inline_float_snapped,
     'abs-auto-margin-ignores-opposite-margin': finding_abs_auto_margin,
     'zero-height-float-at-page-origin': finding_zero_height_float,
     'abs-cb-height-before-min-max': finding_cb_height_before_min_max,
